@@ -572,6 +572,28 @@ theorem temperature_model_state_checked (p : BalParams ℝ) (rates : ℝ → Bal
 example : ∃ bal : ℝ → ℝ → Bal ℝ (MetalOut ℝ), ∀ c T, BalOK (bal c T) :=
   ⟨fun _ _ => ⟨1, 1, 0, 0, constMetals 0 0 0 0 0⟩, fun _ _ => by unfold BalOK; norm_num⟩
 
+/-! ## the glue: normalisation of the counters by the abundances -/
+
+/-- A counter that received no photon stays exactly zero for EVERY abundance — including the
+legal abundance 0 (and negative or tiny ones): the guarded division never produces `0/0`.
+(With the unguarded `J * (1/A)` the IEEE value is `0 * inf = NaN`; Lean's `x/0 = 0` would hide
+that, which is why the guard — and not the quotient — carries the statement.) -/
+theorem normalise_zero_counter (A : ℝ) : normalise (0:ℝ) A = 0 := by
+  unfold normalise; split_ifs <;> simp
+
+/-- the division is only executed with a positive divisor, where IEEE and `ℝ` agree; the
+normalised counter is non-negative for a non-negative counter -/
+theorem normalise_nonneg (J A : ℝ) (hJ : 0 ≤ J) : 0 ≤ normalise J A ∧
+    (¬ (0 < A) → normalise J A = J) := by
+  unfold normalise
+  constructor
+  · split_ifs with h
+    · norm_num at h; exact div_nonneg hJ h.le
+    · exact hJ
+  · intro h
+    have : ¬ ((0.0:ℝ) < A) := by norm_num at h ⊢; exact h
+    rw [if_neg this]
+
 /-! ## outputs depend on the inputs of the update only -/
 
 /-- The model represents the coolant fractions stored in the cell before the call as the input
